@@ -206,6 +206,7 @@ type c05Outcome struct {
 	Returned bool
 	Reads    int
 	Coupled  int
+	From, N  int // cpr: index of the first script token delivered as type-ahead, and how many
 	Res      *sess.Result
 }
 
@@ -229,11 +230,13 @@ func c05RunOne(env *fw.Env, c *c05Case, chunks []string, sc *c05Sched) (*c05Outc
 			// tokens are joined into one write; a boundary directly after an ESC byte is never
 			// removed (stop after a token that ends with ESC)
 			var ta []byte
+			out.From = s.StepsTaken()
 			for i := 0; i < sc.K; i++ {
 				sts := s.TakeSteps(1)
 				if len(sts) == 0 {
 					break
 				}
+				out.N++
 				ta = append(ta, sts[0].W...)
 				if strings.HasSuffix(sts[0].W, "\x1b") {
 					break
@@ -332,8 +335,27 @@ func c05Run(env *fw.Env, raw json.RawMessage) fw.Outcome {
 		}
 		detail := ctx + fmt.Sprintf("\nbase:    one token per read -> line=%q err=%q returned=%v\nvariant: %s chunks=%q j=%d k=%d order=%s -> line=%q err=%q returned=%v", bo.Line, bo.Err, bo.Returned, sc.Kind, chunks, sc.J, sc.K, sc.Ord, vo.Line, vo.Err, vo.Returned)
 		if sc.Kind == "cpr" {
-			o.Viol(fmt.Sprintf("typeahead-with-cursor-report|%s|%s", sc.Ord, c.Mode), detail)
-			continue
+			// Type-ahead joins script tokens into one read. If the same join delivered as a plain
+			// read (no cursor report around it) gives the same different outcome, the cursor
+			// report has nothing to do with it: the case is judged as that plain schedule.
+			var eq []string
+			if vo.N > 1 && vo.From >= 0 && vo.From+vo.N <= len(c.Tokens) && vo.Coupled < 200 {
+				eq = append(eq, c.Tokens[:vo.From]...)
+				eq = append(eq, strings.Join(c.Tokens[vo.From:vo.From+vo.N], ""))
+				eq = append(eq, c.Tokens[vo.From+vo.N:]...)
+			}
+			explained := false
+			if eq != nil {
+				eo, eres := c05RunOne(env, &c, eq, nil)
+				explained = eres.Panic == "" && !eres.Hung && eo.Line == vo.Line && eo.Err == vo.Err && eo.Returned == vo.Returned
+			}
+			if !explained {
+				o.Viol(fmt.Sprintf("typeahead-with-cursor-report|%s|%s", sc.Ord, c.Mode), detail)
+				continue
+			}
+			o.Add("cpr_differences_explained_by_the_joined_tokens_alone", 1)
+			chunks = eq
+			detail += fmt.Sprintf("\nthe same outcome is obtained without any cursor report by the plain schedule %q", eq)
 		}
 		// Is the difference due to boundaries directly after an ESC byte? Re-run with those
 		// boundaries kept as in the base schedule (what the statement prescribes for Vi modes).
